@@ -655,6 +655,11 @@ fn case_strategy() -> impl Strategy<Value = Case> {
             Op::RandomWithoutRepetition(k) | Op::Tournament(_, k) if fit % 3 == 0 => {
                 pop.resize(*k as usize, (3, 1));
             }
+            // sparse requests: a few members out of a population at least eight times as large
+            Op::RandomWithoutRepetition(k) if fit % 3 == 1 => {
+                let len = (8 * *k as usize).max(16) + fit as usize % 20;
+                pop = (0..len).map(|i| (i as u16, ((i * 7) % 11) as i8 - 5)).collect();
+            }
             Op::CloneSingle(_) if fit % 2 == 0 => pop.truncate(1),
             // the smallest base with many distinct ranks: the rank weights span hundreds of orders of magnitude
             Op::ExponentialRank(_, b) if b.f() == f64::EPSILON && fit % 2 == 0 => {
@@ -695,6 +700,73 @@ fn pressure_cases(draws: u32, seeds: u64, base_seed: u64) -> Vec<PressureCase> {
     out
 }
 
+// ------------------------------------------------------------------------------------------------
+// very large populations with pairwise distinct objective values (compact cases)
+// ------------------------------------------------------------------------------------------------
+
+#[derive(Clone, Debug, Serialize, Deserialize)]
+pub struct ManyCase {
+    /// 0 LinearRank, 1 RouletteWheel, 2 StochasticUniversalSampling, 3 Tournament, 4 FullyRandom, 5 RandomWithoutRepetition
+    pub op: u8,
+    pub n: u32,
+    pub k: u32,
+    pub seed: u64,
+}
+
+pub struct ManyCheck;
+
+impl Check for ManyCheck {
+    type Case = ManyCase;
+    fn name(&self) -> String {
+        "C11/many-ranks".into()
+    }
+    fn classes(&self) -> &'static [&'static str] {
+        &["sum of the rank weights >= 2^32 (>= 92 682 distinct ranks)", "rank-based operator"]
+    }
+    fn oracle(&self, c: &ManyCase) -> Outcome {
+        let n = c.n as usize;
+        let k = c.k;
+        let mut cl = 0;
+        if n >= 92_682 {
+            cl |= 1;
+        }
+        if c.op % 6 == 0 {
+            cl |= 2;
+        }
+        // individual i: tag i, objective value i + 1 (pairwise distinct, best first), in a seed-dependent rotation
+        let rot = (c.seed % n.max(1) as u64) as usize;
+        let source: Vec<Individual<RealP>> = (0..n).map(|j| (j + rot) % n).map(|i| Individual::new(vec![i as f64], ((i + 1) as f64).try_into().unwrap())).collect();
+        let mut rng = crate::fixtures::random_for(c.seed);
+        let name = ["LinearRank", "RouletteWheel", "StochasticUniversalSampling", "Tournament", "FullyRandom", "RandomWithoutRepetition"][(c.op % 6) as usize];
+        let at = format!("{name} selecting {k} of {n} individuals with pairwise distinct objective values 1..={n} (seed {})", c.seed);
+        let r = catch(|| match c.op % 6 {
+            0 => Selection::<RealP>::select(&LinearRank::from_params(k), &source, &mut rng).map(|v| v.len()),
+            1 => Selection::<RealP>::select(&RouletteWheel::from_params(k, 0.0), &source, &mut rng).map(|v| v.len()),
+            2 => Selection::<RealP>::select(&StochasticUniversalSampling::from_params(k, 0.0), &source, &mut rng).map(|v| v.len()),
+            3 => Selection::<RealP>::select(&Tournament::from_params(k, 3), &source, &mut rng).map(|v| v.len()),
+            4 => Selection::<RealP>::select(&FullyRandom::from_params(k), &source, &mut rng).map(|v| v.len()),
+            _ => {
+                let base = source.as_ptr() as usize;
+                let sz = std::mem::size_of::<Individual<RealP>>();
+                Selection::<RealP>::select(&RandomWithoutRepetition::from_params(k), &source, &mut rng).map(|v| {
+                    let mut idx: Vec<usize> = v.iter().map(|i| ((*i as *const Individual<RealP> as usize).wrapping_sub(base)) / sz).collect();
+                    idx.sort_unstable();
+                    idx.dedup();
+                    // a repeated member shows as a shorter list
+                    idx.len()
+                })
+            }
+        });
+        let res = match r {
+            Ok(Ok(len)) if len == k as usize => Ok(()),
+            Ok(Ok(len)) => Err(Failure::new(format!("C11 {name} count"), format!("{at}: {len} (distinct) members returned"))),
+            Ok(Err(e)) => Err(Failure::new(format!("C11 {name} rejects valid input"), format!("{at}: {e:#}"))),
+            Err(p) => Err(Failure::new(format!("C11 {name} panics"), format!("{at}: {p}"))),
+        };
+        Outcome::new(cl & 1 != 0, cl, res)
+    }
+}
+
 pub fn run_all(ctx: &mut Ctx, replay: Option<&Path>) {
     ctx.rule("selection: case = (operator with parameters, population of tagged individuals with ties / duplicates by value / negative / +inf objectives scaled by 1e-6..1e6, seed, via Component::execute or Selection::select, populations below); oracle: source unchanged at depth 1, exactly one population pushed, every selected individual an exact copy of a source member (reference into the source for select), cardinality per operator, distinct members for without-repetition (by address), DE block layout, IWO counts, documented unusable inputs => Err; non-trivial = population >= 3 with a tie or duplicate and a non-zero request. pressure: fixed well-separated populations x operators x N draws: proportional_weights monotone / non-negative / normalised, frequency(better) >= frequency(worse) - 6 sqrt(N); non-trivial = >= 3 distinct ranks; distinct by case");
     ctx.assume("outside the domain (no documented behaviour): FullyRandom / rank selection / weights on an empty population, tournament size 0, IWO min > max, unevaluated individuals for fitness-based operators, objective magnitudes above 1e100");
@@ -702,7 +774,7 @@ pub fn run_all(ctx: &mut Ctx, replay: Option<&Path>) {
     let k = SelCheck;
     let p = PressureCheck;
     if let Some(path) = replay {
-        let _ = ctx.replay_file(&k, path) || ctx.replay_file(&p, path);
+        let _ = ctx.replay_file(&k, path) || ctx.replay_file(&p, path) || ctx.replay_file(&ManyCheck, path);
         return;
     }
     ctx.regressions(&k);
@@ -711,5 +783,9 @@ pub fn run_all(ctx: &mut Ctx, replay: Option<&Path>) {
     let draws = ctx.tier.pick(4000, 20_000);
     let seeds = ctx.tier.pick(2, 10);
     let base = ctx.derive_seed("pressure");
+    let many = ManyCheck;
+    ctx.regressions(&many);
+    let base_many = ctx.derive_seed("many-ranks");
+    ctx.exhaustive(&many, "6 operators x population sizes {1 000, 65 536, 92 681, 92 682, 100 000} (pairwise distinct objective values) x requested {1, 7}", (0u8..6).flat_map(move |op| [1_000u32, 65_536, 92_681, 92_682, 100_000].into_iter().flat_map(move |n| [1u32, 7].into_iter().map(move |k| ManyCase { op, n, k, seed: base_many.wrapping_add(n as u64 * 31 + op as u64) }))));
     ctx.exhaustive(&p, &format!("10 well-separated populations x 4 scale/shift variants x {seeds} seeds x 8-9 operator settings x {draws} draws"), pressure_cases(draws, seeds, base).into_iter());
 }
